@@ -90,6 +90,8 @@ type snapshot struct {
 	status  string
 	summary string
 	active  int
+	bfull   bool // the batch channel (cap --batch-buffer) was full when this render ran
+	rfull   bool // the 5-slot match channel was full when this render ran
 }
 
 func check(c Case) error {
@@ -131,6 +133,8 @@ func check(c Case) error {
 		s.summary = helpers.FWriteExtractorSummary(p.Extractor, rec.counter.ParseErrors(), fmt.Sprintf("(Groups: %d)", rec.counter.GroupCount()))
 		s.status = p.Batcher.StatusString()
 		s.active = p.Batcher.ActiveFileCount()
+		s.bfull = len(p.Batcher.BatchChan()) == cap(p.Batcher.BatchChan())
+		s.rfull = len(p.Extractor.ReadChan()) == cap(p.Extractor.ReadChan())
 		snaps = append(snaps, s)
 		if atomic.LoadInt32(&rec.inSample) != 0 && renderErr == nil {
 			renderErr = fmt.Errorf("a match was sampled while a render was running")
@@ -215,13 +219,18 @@ func check(c Case) error {
 	if o != nil {
 		o.Add("renders", len(snaps)-1)
 		o.Add("rw", pc.Workers*maxi(1, mini(pc.Readers, len(pc.Inputs))))
-		act := 0
+		act, full := 0, 0
 		for _, s := range snaps[:len(snaps)-1] {
 			if s.active > 0 {
 				act++
 			}
+			if s.bfull && s.rfull {
+				full++ // readers are parked in their send on the batch channel, workers in theirs on the match channel
+			}
 		}
 		o.Add("renders-while-reading", act)
+		o.Add("renders-with-full-channels", full)
+		o.Label(full > 0, "render-while-both-channels-full")
 		o.Label(wall >= 500*time.Millisecond && act > 0, "rate-update-branch(>0.5s)")
 		o.Label(len(snaps)-1 >= 3, ">=3-intermediate-renders")
 		o.Label(act > 0, "render-overlapping-active-reader")
